@@ -8,4 +8,6 @@ if grep -rnE '\b(Admitted|admit|Axiom|Parameter|Conjecture)\b|Unset Guard|bypass
 fi
 bash coq/build.sh
 PYTHONPATH=/repo/src:/verif JAX_PLATFORMS=cpu /venv/bin/python -c "import lerax, jax, equinox; print('lerax importable from', lerax.__path__)"
+# every kernel translates from the source as it stands and every link theorem checks against the regenerated definitions
+tools/check_links.sh
 echo "setup ok"
